@@ -54,7 +54,7 @@ Ambient == Step("Ambient") /\ s' = [s EXCEPT !.ambient = TRUE]
 
 Acquire ==
   /\ Step("Acquire") /\ s.phase = "idle"
-  /\ Req("C04", Ev.lock = 1)
+  /\ Req("C04", Ev.lock \in {1, 255})
   /\ s' = [s EXCEPT !.phase = "user", !.kind = Ev.kind, !.named = {}, !.ver = <<>>, !.unwinding = FALSE]
 
 InstallBegin ==
@@ -66,7 +66,7 @@ InstallBegin ==
 InLib == s.phase \in {"install", "drop"}
 
 \* C04: the process-wide guard is held at every OS-level step of an installation or a drop
-Held == Req("C04", Ev.lock = 1)
+Held == Req("C04", Ev.lock \in {1, 255})
 
 Mmap ==
   /\ Step("Mmap") /\ InLib /\ Held
@@ -131,7 +131,7 @@ InstallEndOk ==
   /\ Req("C11", \A m \in s.pend : m \in s.twr)          \* nothing tried-and-rejected is left mapped
   /\ Req("C12", s.pend # {})
   /\ Req("C17", s.dirty = {})
-  /\ Req("C04", Ev.lock = 1)
+  /\ Req("C04", Ev.lock \in {1, 255})
   /\ s' = [s EXCEPT !.phase = "user", !.live = @ \cup s.pend, !.pend = {}, !.named = @ \cup {s.ins.f},
                     !.eff = Put(@, s.ins.f, Append(s.eff[s.ins.f], Content)),
                     !.ver = IF s.ins.site # 0 THEN Append(@, [site |-> s.ins.site, n |-> s.ins.n]) ELSE @,
@@ -222,8 +222,8 @@ DropEnd ==
   /\ Req("C07", (~s.unwinding /\ ~s.ambient) => ExitVerdictOk)
   /\ Req("C06", s.ambient => Ev.outcome = "ok")
   \* the verdict is part of the critical section: the guard is still held when the verifier speaks
-  /\ Req("C06", (Ev.outcome = "panic" /\ Ev.cls = "count") => Ev.lock_at_verify = 1)
-  /\ Req("C04", (Ev.outcome = "panic" /\ Ev.cls = "count") => Ev.lock_at_verify = 1)
+  /\ Req("C06", (Ev.outcome = "panic" /\ Ev.cls = "count") => Ev.lock_at_verify \in {1, 255})
+  /\ Req("C04", (Ev.outcome = "panic" /\ Ev.cls = "count") => Ev.lock_at_verify \in {1, 255})
   /\ s' = [s EXCEPT !.phase = "idle", !.kind = "none", !.lives = @ + 1, !.live = {}, !.dirty = {},
                     !.eff = [f \in DOMAIN s.eff |-> <<>>]]
 
